@@ -123,13 +123,24 @@ impl<'de> JsonInput<'de> for &'de Bytes {
     }
 
     fn to_json_slice(&self) -> JsonSlice<'de> {
-        let bytes = self.as_ref();
+        let bytes: &'de [u8] = (*self).as_ref();
         let newed = self.slice_ref(bytes);
-        JsonSlice::FastStr(unsafe { FastStr::from_bytes_unchecked(newed) })
+        let shared = unsafe { FastStr::from_bytes_unchecked(newed) };
+        if shared.as_ptr() == bytes.as_ptr() {
+            JsonSlice::FastStr(shared)
+        } else {
+            // a short text is copied inline by `FastStr`: borrow the caller's bytes, which live for 'de
+            JsonSlice::Raw(bytes)
+        }
     }
 
     fn from_subset(&self, sub: &'de [u8]) -> JsonSlice<'de> {
-        self.slice_ref(sub).into()
+        let shared = unsafe { FastStr::from_bytes_unchecked(self.slice_ref(sub)) };
+        if shared.as_ptr() == sub.as_ptr() {
+            JsonSlice::FastStr(shared)
+        } else {
+            JsonSlice::Raw(sub)
+        }
     }
 
     fn to_u8_slice(&self) -> &'de [u8] {
@@ -153,7 +164,13 @@ impl<'de> JsonInput<'de> for &'de FastStr {
     }
 
     fn from_subset(&self, sub: &'de [u8]) -> JsonSlice<'de> {
-        self.slice_ref(as_str(sub)).into()
+        let shared = self.slice_ref(as_str(sub));
+        if shared.as_ptr() == sub.as_ptr() {
+            JsonSlice::FastStr(shared)
+        } else {
+            // a short sub-text is copied inline: borrow the caller's bytes, which live for 'de
+            JsonSlice::Raw(sub)
+        }
     }
 
     fn to_u8_slice(&self) -> &'de [u8] {
